@@ -91,6 +91,14 @@ def run(ctx):
     cc = _C(); cc.rng = rng
     for cfg, t, _, _ in c08.build(cc, n // 4):
         texts.append(t)
+    # hyphenated words where lines get wrapped: a break after the hyphen would read back as a dash-continuation
+    hy = ["high-resolution", "along-track", "push-broom", "whisk-broom", "semi-major-axis", "cross-track", "a-b"]
+    for n in (6, 9, 12, 16):
+        for off in range(3):
+            ws = [hy[(i + off) % len(hy)] for i in range(n)]
+            texts.append("x%s = (%s)\nEND\n" % ("k" * off, ", ".join(ws)))
+            texts.append("x%s = \"%s\"\nEND\n" % ("k" * off, " ".join(ws)))
+            texts.append("GROUP = g\n  OBJECT = o\n    filters%s = {%s}\n  END_OBJECT\nEND_GROUP\nEND\n" % ("k" * off, ", ".join(ws)))
     texts += ["t = 23:59:60\nu = 1998-12-31T23:59:60.5Z\nEND", "s = (1, 2) <m>\nq = {a, b} <K>\n",
               "Begin_Group = g\n x = nUlL\n y = tRuE\nEnd_group = g\neNd", "a = \"x-\n   y  z\"\n", "a = 'it''s'\n"]
     for name, t in pf.corpus_texts():
